@@ -82,6 +82,8 @@ class Acct:
         self.cfg = cfg_of(body)
         self.uo = {}            # symbol -> (root local of the Option, linear form of the default)
         self.bounded = set()    # symbols known to satisfy sym + 1 <= len(text): find / rfind results
+        self.path_pos = None    # block -> last position on the path being evaluated (run_path)
+        self.cur = 0
 
     # ------------------------------------------------------------------ locals
     def root(self, l):
@@ -90,6 +92,15 @@ class Acct:
 
     def whole_def(self, l):
         ds = [d for d in self.b.defs().get(l, []) if d[0] == "call" or (d[0] == "stmt" and not d[3]["lhs"]["p"])]
+        if len(ds) > 1 and self.path_pos is not None:
+            # path-sensitive: along the path being summed, the definition in force is the last one
+            # executed before the current position
+            on = [(self.path_pos[d[1]], d) for d in ds if d[1] in self.path_pos and self.path_pos[d[1]] <= self.cur]
+            if on:
+                on.sort(key=lambda x: x[0])
+                if len(on) == 1 or on[-1][0] != on[-2][0]:
+                    return on[-1][1]
+            return None
         return ds[0] if len(ds) == 1 else None
 
     def follow_ref(self, l, depth=10):
@@ -143,7 +154,32 @@ class Acct:
         key = self.place_key(pl)
         if key in roots:
             return lin(**{roots[key]: 1})
+        sp = self.stripped(pl)
+        if sp is not None:
+            s_op, n = sp
+            return ladd(self.str_len_op(s_op, roots), lin(n), -1)
         raise Undecidable("length of %s" % key)
+
+    def stripped(self, pl):
+        """`(x as Some).0` with x = s.strip_prefix(P) / s.strip_suffix(P), P a constant char or string:
+        (operand of s, byte length of P) - the payload is s without exactly that many bytes"""
+        p = [x for x in pl["p"] if x != "deref"]
+        if len(p) != 2 or not (isinstance(p[0], dict) and p[0].get("dc") == "Some" and isinstance(p[1], dict) and str(p[1].get("f")) == "0"):
+            return None
+        d = self.whole_def(self.root(pl["l"]))
+        if d is None or d[0] != "call":
+            return None
+        t = d[3]
+        if not re.search(r"<impl str>::strip_(prefix|suffix)$", callee_name(t)) or len(t["args"]) != 2:
+            return None
+        c = self.op_const(t["args"][1])
+        if isinstance(c, str):
+            n = len(c.encode())
+        elif isinstance(c, int) and 0 <= c < 0x110000:
+            n = len(chr(c).encode())
+        else:
+            return None
+        return t["args"][0], n
 
     def place_key(self, pl):
         base = self.follow_ref(pl["l"]) if all(not isinstance(x, dict) for x in pl["p"]) else self.root(pl["l"])
@@ -229,6 +265,9 @@ class Acct:
             fields = [x for x in pl["p"] if isinstance(x, dict)]
             if d and d[0] == "stmt" and d[3]["rv"]["k"] == "bin" and d[3]["rv"]["op"].endswith("WithOverflow") and len(fields) == 1 and str(fields[0].get("f")) == "0":
                 return self.num_rv(d[3]["rv"], roots)
+            if d and d[0] == "stmt" and d[3]["rv"]["k"] == "agg" and d[3]["rv"].get("agg") == "tuple" and len(fields) == 1 and str(fields[0].get("f", "")).isdigit() \
+                    and int(fields[0]["f"]) < len(d[3]["rv"]["ops"]):
+                return self.num_op(d[3]["rv"]["ops"][int(fields[0]["f"])], roots)
             sym = "p#%s" % self.place_key({"l": base, "p": pl["p"]})
             if self.searchy_local(base):
                 self.bounded.add(sym)
@@ -286,6 +325,36 @@ class Acct:
             return False
         return False
 
+    def known_variant(self, l, depth=8):
+        """variant index of the enum value in `l`, if the definition in force on the current path is
+        an aggregate (followed through copies and tuple fields)"""
+        for _ in range(depth):
+            d = self.whole_def(l)
+            if d is None or d[0] != "stmt":
+                return None
+            rv = d[3]["rv"]
+            if rv["k"] == "agg" and rv.get("agg") == "adt" and isinstance(rv.get("vi"), int):
+                return rv["vi"]
+            if rv["k"] != "use":
+                return None
+            pl = rv["op"].get("c") or rv["op"].get("m")
+            if pl is None:
+                return None
+            fields = [x for x in pl["p"] if isinstance(x, dict)]
+            if not fields:
+                l = pl["l"]
+                continue
+            if len(fields) == 1 and str(fields[0].get("f", "")).isdigit():
+                dd = self.whole_def(pl["l"])
+                if dd and dd[0] == "stmt" and dd[3]["rv"]["k"] == "agg" and dd[3]["rv"].get("agg") == "tuple" and int(fields[0]["f"]) < len(dd[3]["rv"]["ops"]):
+                    op = dd[3]["rv"]["ops"][int(fields[0]["f"])]
+                    p2 = op.get("c") or op.get("m")
+                    if p2 is not None and not p2["p"]:
+                        l = p2["l"]
+                        continue
+            return None
+        return None
+
     def some_sym(self, oroot):
         return "p#%d:Some.0" % oroot
 
@@ -299,7 +368,19 @@ class Acct:
         variants = {}       # root local of an Option -> 0 (None) / 1 (Some)
         ge_len = []         # (X, Y) with the fact X >= Y on this path
         total = {}
+        self.path_pos = {}
         for i, bb in enumerate(path):
+            self.path_pos[bb] = i
+        try:
+            return self._run_path(path, roots, result_local, consts, variants, ge_len, total)
+        finally:
+            self.path_pos = None
+
+    def _run_path(self, path, roots, result_local, consts, variants, ge_len, total):
+        from rules import util
+        b = self.b
+        for i, bb in enumerate(path):
+            self.cur = i
             blk = b.blocks[bb]
             for s in blk["stmts"]:
                 if s["k"] != "assign" or s["lhs"]["p"]:
@@ -362,6 +443,13 @@ class Acct:
                 if d and d[0] == "stmt" and d[3]["rv"]["k"] == "discr":
                     dp = d[3]["rv"]["place"]
                     if not any(isinstance(x, dict) for x in dp["p"]):
+                        kv = self.known_variant(dp["l"])
+                        if kv is not None:
+                            # the value tested was built as this variant earlier on the path
+                            if taken and kv not in taken:
+                                return None
+                            if is_other and kv in t["vals"]:
+                                return None
                         key = self.root(dp["l"])
                         if taken:
                             variants[key] = taken[0]
@@ -458,6 +546,19 @@ def normaliser_report(ctx, body):
         else:
             # a whole string pushed unchanged (`push_str(line)`)
             key = A.str_key_local(pl["l"])
+            dd0 = A.whole_def(A.follow_ref(pl["l"]))
+            if dd0 is not None and dd0[0] == "stmt" and dd0[3]["rv"]["k"] == "use":
+                spl = dd0[3]["rv"]["op"].get("c") or dd0[3]["rv"]["op"].get("m")
+                sp = A.stripped(spl) if spl else None
+                if sp is not None:
+                    rp = sp[0].get("c") or sp[0].get("m")
+                    if rp is not None:
+                        # the stripped string itself may be a slice of the text
+                        rl = A.follow_ref(rp["l"])
+                        rd = A.whole_def(rl)
+                        if rd and rd[0] == "call" and re.search(r"Index", callee_name(rd[3])) and len(rd[3]["args"]) == 2:
+                            rp = rd[3]["args"][0].get("c") or rd[3]["args"][0].get("m")
+                        key = A.place_key(rp) if any(isinstance(x, dict) for x in rp["p"]) else A.str_key_local(rp["l"])
             c = A.op_const(t["args"][1])
             dd = A.whole_def(A.follow_ref(pl["l"]))
             is_const = dd is not None and dd[0] == "stmt" and dd[3]["rv"]["k"] == "use" and isinstance(A.op_const(dd[3]["rv"]["op"]), str)
@@ -542,7 +643,14 @@ def normaliser_report(ctx, body):
                 continue
             total, ge, variants = r
             if through_loop:
-                total = A.resolve(ladd(total, loop_len), variants)
+                # the partitioned slice's length, with the definitions in force on this path
+                A.path_pos = {bb: i for i, bb in enumerate(p)}
+                A.cur = len(p)
+                try:
+                    ll = A.str_len_op(loop_info[0][3], roots)
+                finally:
+                    A.path_pos = None
+                total = A.resolve(ladd(total, ll), variants)
             n_paths += 1
             if A.equal_len(total, L, ge):
                 out.append((True, "a returning path pushes exactly len(text)"))
